@@ -271,7 +271,12 @@ func Equal_Q(a, b MalType) bool {
 			return false
 		}
 		for k, v := range am {
-			if !Equal_Q(v, bm[k]) {
+			bv, ok := bm[k]
+			if !ok {
+				// same size but different key sets (a missing key is not a nil value)
+				return false
+			}
+			if !Equal_Q(v, bv) {
 				return false
 			}
 		}
